@@ -353,3 +353,35 @@ func vsS23() {
 	}
 	e.vFinish("S23", b)
 }
+
+// ---- S24: where the text of a Write stands inside the frame that carries it (C13, C04): after the cursor has been
+// moved up over the previous frame and before the bar rows.  Cursor-up sequences count as order mark 15
+// (vMarkCursorUp), the text line is mark 2, the bar row mark 1; one output write per frame.
+func vsS24() {
+	vMarkCursorUp()
+	e := vNewContainer(vManual, -1)
+	e.vTicks()
+	m := vNewMark(0)
+	m.digit, m.width = 1, 10
+	b, _ := e.p.Add(2, m, BarFillerTrim())
+	if vParam("textBeforeFirstFrame") != 0 {
+		n, err := e.p.Write([]byte(vMarkText(100, 1, 2)))
+		vAssert(n == 101 && err == nil, "S24.write-accepted")
+		e.cycle()
+		vAssert(e.rec.seq[0] == 0x21 && e.rec.cuu[0] == 0, "S24.first-frame-is-text-then-row-without-cursor-movement")
+	} else {
+		e.cycle()
+		vAssert(e.rec.seq[0] == 0x1 && e.rec.cuu[0] == 0, "S24.first-frame-is-the-row-without-cursor-movement")
+	}
+	n, err := e.p.Write([]byte(vMarkText(100, 1, 2)))
+	vAssert(n == 101 && err == nil, "S24.write-accepted")
+	e.cycle()
+	vAssert(e.rec.cuu[1] == 1, "S24.cursor-moves-up-over-the-one-bar-row-of-the-previous-frame")
+	vAssert(e.rec.seq[1] == 0xF21, "S24.text-stands-after-the-cursor-movement-and-above-the-bar-row")
+	e.cycle()
+	vAssert(e.rec.seq[2] == 0xF1 && e.rec.cuu[2] == 1, "S24.next-frame-redraws-only-the-bar-row")
+	b.IncrBy(2)
+	e.refresh <- nil
+	e.refresh <- nil
+	e.vFinish("S24", b)
+}
